@@ -25,6 +25,14 @@ ROPE_API = {
     "ropey::Rope::len_utf16_cu": ("utf16", []),
     "ropey::RopeSlice::<'a>::len_chars": ("chars", []),
     "ropey::RopeSlice::<'a>::len_bytes": ("bytes", []),
+    "ropey::RopeSlice::<'a>::len_utf16_cu": ("utf16", []),
+    "ropey::RopeSlice::<'a>::len_lines": ("lines", []),
+    "ropey::RopeSlice::<'a>::byte_to_char": ("chars", ["bytes"]),
+    "ropey::RopeSlice::<'a>::char_to_byte": ("bytes", ["chars"]),
+    "ropey::RopeSlice::<'a>::char_to_utf16_cu": ("utf16", ["chars"]),
+    "ropey::RopeSlice::<'a>::utf16_cu_to_char": ("chars", ["utf16"]),
+    "ropey::Rope::byte_slice": ("slice", []),
+    "ropey::Rope::slice": ("slice", []),
     "ropey::Rope::line": ("slice", ["lines"]),
     "ropey::Rope::char": ("char", ["chars"]),
     "ropey::Rope::byte": ("byte", ["bytes"]),
